@@ -34,7 +34,9 @@ def main():
             "evidence_file": f"/verif/evidence/{pid}.json",
             "replay_cmd_template": f"./check {pid} --replay {{path}}",
             "engine": c.ENGINE,
-            "level_claimed": {"category": m.get("level", "proof"), "text": m["text"], "design_ref": m.get("design_ref", "DESIGN.md §6")},
+            "level_claimed": {"category": "proof",
+                              "text": ("PARTIAL PROOF (the named residue is tested, not proved). " if "partial" in m.get("level", "proof") else "") + m["text"],
+                              "design_ref": m.get("design_ref", "DESIGN.md §6")},
             "level_note": m["note"],
             "technique": m["technique"],
         })
